@@ -28,22 +28,22 @@ elab "kernel_rfl" : tactic => do
   g.assign (← mkEqRefl lhs)
 
 /-- five words (a 4-word value plus a carry/overflow word) -/
-structure W5 where
+structure Scalar.W5 where
   v0 : Nat
   v1 : Nat
   v2 : Nat
   v3 : Nat
   v4 : Nat
 
-def eval5 (t : W5) : Nat := t.v0 + t.v1 * 2^64 + t.v2 * 2^128 + t.v3 * 2^192 + t.v4 * 2^256
+def Scalar.eval5 (t : Scalar.W5) : Nat := t.v0 + t.v1 * 2^64 + t.v2 * 2^128 + t.v3 * 2^192 + t.v4 * 2^256
 
-def Words (s : W4) : Prop := s.w0 < 2^64 ∧ s.w1 < 2^64 ∧ s.w2 < 2^64 ∧ s.w3 < 2^64
-def Words5 (t : W5) : Prop := t.v0 < 2^64 ∧ t.v1 < 2^64 ∧ t.v2 < 2^64 ∧ t.v3 < 2^64 ∧ t.v4 < 2^64
+def Scalar.Words (s : W4) : Prop := s.w0 < 2^64 ∧ s.w1 < 2^64 ∧ s.w2 < 2^64 ∧ s.w3 < 2^64
+def Scalar.Words5 (t : Scalar.W5) : Prop := t.v0 < 2^64 ∧ t.v1 < 2^64 ∧ t.v2 < 2^64 ∧ t.v3 < 2^64 ∧ t.v4 < 2^64
 
-theorem inv_words {s : W4} (h : Inv s) : Words s := ⟨h.1, h.2.1, h.2.2.1, h.2.2.2.1⟩
-theorem inv_lt {s : W4} (h : Inv s) : eval s < L := h.2.2.2.2
+theorem Scalar.inv_words {s : W4} (h : Inv s) : Scalar.Words s := ⟨h.1, h.2.1, h.2.2.1, h.2.2.2.1⟩
+theorem Scalar.inv_lt {s : W4} (h : Inv s) : eval s < L := h.2.2.2.2
 
-theorem scL_eq : L = 6346243789798364141 + 1503914060200516822 * 2^64 + 0 * 2^128 + 1152921504606846976 * 2^192 := by
+theorem Scalar.L_words : L = 6346243789798364141 + 1503914060200516822 * 2^64 + 0 * 2^128 + 1152921504606846976 * 2^192 := by
   decide
 
 /-! ### cmovznz -/
@@ -89,7 +89,7 @@ theorem add64_carry (x y c : Nat) (hx : x < 2^64) (hy : y < 2^64) (hc : c ≤ 1)
 
 /-! ### the final conditional subtraction of `l` (shared by add, mul, to/from_montgomery) -/
 
-def csub (t : W5) : W4 :=
+def csub (t : Scalar.W5) : W4 :=
   let s0 := Bits.Sub64 t.v0 6346243789798364141 0
   let s1 := Bits.Sub64 t.v1 1503914060200516822 s0.2
   let s2 := Bits.Sub64 t.v2 0 s1.2
@@ -123,13 +123,13 @@ theorem sc_mod_of_sub (T d m : Nat) (h : d + m = T) (hd : d < m) : T % m = d := 
   subst h
   rw [Nat.add_mod_right, Nat.mod_eq_of_lt hd]
 
-theorem csub_spec (t : W5) (hw : Words5 t) (hlt : eval5 t < 2 * L) :
-    Inv (csub t) ∧ eval (csub t) = eval5 t % L := by
+theorem csub_spec (t : Scalar.W5) (hw : Scalar.Words5 t) (hlt : Scalar.eval5 t < 2 * L) :
+    Inv (csub t) ∧ eval (csub t) = Scalar.eval5 t % L := by
   obtain ⟨t0, t1, t2, t3, t4⟩ := t
   obtain ⟨h0, h1, h2, h3, h4⟩ := hw
   simp only at h0 h1 h2 h3 h4
-  simp only [eval5, csub, Scalar.Inv, Scalar.eval] at hlt ⊢
-  rw [scL_eq] at hlt ⊢
+  simp only [Scalar.eval5, csub, Scalar.Inv, Scalar.eval] at hlt ⊢
+  rw [Scalar.L_words] at hlt ⊢
   obtain ⟨e0, l0, c0⟩ := sub64_spec t0 6346243789798364141 0 h0 (by norm_num) (by norm_num)
   obtain ⟨e1, l1, c1⟩ := sub64_spec t1 1503914060200516822 _ h1 (by norm_num) c0
   obtain ⟨e2, l2, c2⟩ := sub64_spec t2 0 _ h2 (by norm_num) c1
@@ -161,7 +161,7 @@ theorem csub_spec (t : W5) (hw : Words5 t) (hlt : eval5 t < 2 * L) :
 
 /-! ### add -/
 
-def addChain (x y : W4) : W5 :=
+def addChain (x y : W4) : Scalar.W5 :=
   let a0 := Bits.Add64 x.w0 y.w0 0
   let a1 := Bits.Add64 x.w1 y.w1 a0.2
   let a2 := Bits.Add64 x.w2 y.w2 a1.2
@@ -171,8 +171,8 @@ def addChain (x y : W4) : W5 :=
 theorem fiatScalarAdd_eq (o x y : W4) : Fiat.fiatScalarAdd o x y = csub (addChain x y) := by
   kernel_rfl
 
-theorem addChain_spec (x y : W4) (hx : Words x) (hy : Words y) :
-    Words5 (addChain x y) ∧ eval5 (addChain x y) = eval x + eval y := by
+theorem addChain_spec (x y : W4) (hx : Scalar.Words x) (hy : Scalar.Words y) :
+    Scalar.Words5 (addChain x y) ∧ Scalar.eval5 (addChain x y) = eval x + eval y := by
   obtain ⟨x0, x1, x2, x3⟩ := x
   obtain ⟨y0, y1, y2, y3⟩ := y
   obtain ⟨hx0, hx1, hx2, hx3⟩ := hx
@@ -186,7 +186,7 @@ theorem addChain_spec (x y : W4) (hx : Words x) (hy : Words y) :
   have c2 := add64_carry x2 y2 _ hx2 hy2 c1
   obtain ⟨e3, l3⟩ := add64_spec x3 y3 (Bits.Add64 x2 y2 (Bits.Add64 x1 y1 (Bits.Add64 x0 y0 0).2).2).2
   have c3 := add64_carry x3 y3 _ hx3 hy3 c2
-  simp only [addChain, Words5, eval5, Scalar.eval]
+  simp only [addChain, Scalar.Words5, Scalar.eval5, Scalar.eval]
   generalize Bits.Add64 x3 y3 _ = a3 at *
   generalize Bits.Add64 x2 y2 _ = a2 at *
   generalize Bits.Add64 x1 y1 _ = a1 at *
@@ -197,8 +197,8 @@ theorem addChain_spec (x y : W4) (hx : Words x) (hy : Words y) :
 theorem fiatAdd_spec (o x y : W4) (hx : Inv x) (hy : Inv y) :
     Inv (Fiat.fiatScalarAdd o x y) ∧ eval (Fiat.fiatScalarAdd o x y) = (eval x + eval y) % L := by
   rw [fiatScalarAdd_eq]
-  obtain ⟨hw, he⟩ := addChain_spec x y (inv_words hx) (inv_words hy)
-  have := csub_spec (addChain x y) hw (by rw [he]; have := inv_lt hx; have := inv_lt hy; omega)
+  obtain ⟨hw, he⟩ := addChain_spec x y (Scalar.inv_words hx) (Scalar.inv_words hy)
+  have := csub_spec (addChain x y) hw (by rw [he]; have := Scalar.inv_lt hx; have := Scalar.inv_lt hy; omega)
   rwa [he] at this
 
 theorem fiatAdd_receiver (o o' x y : W4) : Fiat.fiatScalarAdd o x y = Fiat.fiatScalarAdd o' x y := by
@@ -206,7 +206,7 @@ theorem fiatAdd_receiver (o o' x y : W4) : Fiat.fiatScalarAdd o x y = Fiat.fiatS
 
 /-! ### sub, opp -/
 
-def subChain (x y : W4) : W5 :=
+def subChain (x y : W4) : Scalar.W5 :=
   let s0 := Bits.Sub64 x.w0 y.w0 0
   let s1 := Bits.Sub64 x.w1 y.w1 s0.2
   let s2 := Bits.Sub64 x.w2 y.w2 s1.2
@@ -214,7 +214,7 @@ def subChain (x y : W4) : W5 :=
   ⟨s0.1, s1.1, s2.1, s3.1, s3.2⟩
 
 /-- add `l` back if the borrow `t.v4` is set -/
-def maskAdd (t : W5) : W4 :=
+def maskAdd (t : Scalar.W5) : W4 :=
   let x9 := Fiat.fiatScalarCmovznzU64 0 t.v4 0 18446744073709551615
   let a0 := Bits.Add64 t.v0 (U.and 64 x9 6346243789798364141) 0
   let a1 := Bits.Add64 t.v1 (U.and 64 x9 1503914060200516822) a0.2
@@ -228,8 +228,8 @@ theorem fiatScalarSub_eq (o x y : W4) : Fiat.fiatScalarSub o x y = maskAdd (subC
 theorem fiatScalarOpp_eq (o x : W4) : Fiat.fiatScalarOpp o x = Fiat.fiatScalarSub o ⟨0, 0, 0, 0⟩ x := by
   kernel_rfl
 
-theorem subChain_spec (x y : W4) (hx : Words x) (hy : Words y) :
-    Words5 (subChain x y) ∧ (subChain x y).v4 ≤ 1 ∧
+theorem subChain_spec (x y : W4) (hx : Scalar.Words x) (hy : Scalar.Words y) :
+    Scalar.Words5 (subChain x y) ∧ (subChain x y).v4 ≤ 1 ∧
       (subChain x y).v0 + (subChain x y).v1 * 2^64 + (subChain x y).v2 * 2^128 + (subChain x y).v3 * 2^192
         + eval y = eval x + (subChain x y).v4 * 2^256 := by
   obtain ⟨x0, x1, x2, x3⟩ := x
@@ -241,7 +241,7 @@ theorem subChain_spec (x y : W4) (hx : Words x) (hy : Words y) :
   obtain ⟨e1, l1, c1⟩ := sub64_spec x1 y1 _ hx1 hy1 c0
   obtain ⟨e2, l2, c2⟩ := sub64_spec x2 y2 _ hx2 hy2 c1
   obtain ⟨e3, l3, c3⟩ := sub64_spec x3 y3 _ hx3 hy3 c2
-  simp only [subChain, Words5, Scalar.eval]
+  simp only [subChain, Scalar.Words5, Scalar.eval]
   generalize Bits.Sub64 x3 y3 _ = a3 at *
   generalize Bits.Sub64 x2 y2 _ = a2 at *
   generalize Bits.Sub64 x1 y1 _ = a1 at *
@@ -249,14 +249,14 @@ theorem subChain_spec (x y : W4) (hx : Words x) (hy : Words y) :
   refine ⟨⟨l0, l1, l2, l3, by omega⟩, c3, ?_⟩
   omega
 
-theorem maskAdd_spec (t : W5) (hw : Words5 t) (hb : t.v4 ≤ 1) :
-    Words (maskAdd t) ∧
+theorem maskAdd_spec (t : Scalar.W5) (hw : Scalar.Words5 t) (hb : t.v4 ≤ 1) :
+    Scalar.Words (maskAdd t) ∧
       eval (maskAdd t) = (t.v0 + t.v1 * 2^64 + t.v2 * 2^128 + t.v3 * 2^192 + t.v4 * L) % 2^256 := by
   obtain ⟨t0, t1, t2, t3, t4⟩ := t
   obtain ⟨h0, h1, h2, h3, h4⟩ := hw
   simp only at h0 h1 h2 h3 h4 hb
-  simp only [maskAdd, Words, Scalar.eval]
-  rw [cmovznz_spec _ _ _ _ hb (by norm_num) (by norm_num), scL_eq]
+  simp only [maskAdd, Scalar.Words, Scalar.eval]
+  rw [cmovznz_spec _ _ _ _ hb (by norm_num) (by norm_num), Scalar.L_words]
   have hb' : t4 = 0 ∨ t4 = 1 := by omega
   rcases hb' with rfl | rfl
   · have z0 : U.and 64 0 6346243789798364141 = 0 := by decide
@@ -274,10 +274,10 @@ theorem maskAdd_spec (t : W5) (hw : Words5 t) (hb : t.v4 ≤ 1) :
 theorem fiatSub_spec (o x y : W4) (hx : Inv x) (hy : Inv y) :
     Inv (Fiat.fiatScalarSub o x y) ∧ eval (Fiat.fiatScalarSub o x y) = (eval x + L - eval y) % L := by
   rw [fiatScalarSub_eq]
-  obtain ⟨hw, hb, he⟩ := subChain_spec x y (inv_words hx) (inv_words hy)
+  obtain ⟨hw, hb, he⟩ := subChain_spec x y (Scalar.inv_words hx) (Scalar.inv_words hy)
   obtain ⟨mw, me⟩ := maskAdd_spec _ hw hb
-  have hxl := inv_lt hx
-  have hyl := inv_lt hy
+  have hxl := Scalar.inv_lt hx
+  have hyl := Scalar.inv_lt hy
   have hL : L = 2^252 + 27742317777372353535851937790883648493 := rfl
   have hDlt : (subChain x y).v0 + (subChain x y).v1 * 2^64 + (subChain x y).v2 * 2^128 +
       (subChain x y).v3 * 2^192 < 2^256 := by
@@ -338,7 +338,7 @@ theorem fiatScalarNonzero_eq (o : Nat) (x : W4) :
 theorem fiatNonzero_receiver (o o' : Nat) (x : W4) :
     Fiat.fiatScalarNonzero o x = Fiat.fiatScalarNonzero o' x := rfl
 
-theorem fiatNonzero_lt (o : Nat) (x : W4) (hx : Words x) : Fiat.fiatScalarNonzero o x < 2^64 := by
+theorem fiatNonzero_lt (o : Nat) (x : W4) (hx : Scalar.Words x) : Fiat.fiatScalarNonzero o x < 2^64 := by
   rw [fiatScalarNonzero_eq]
   exact Nat.or_lt_two_pow hx.1 (Nat.or_lt_two_pow hx.2.1 (Nat.or_lt_two_pow hx.2.2.1 hx.2.2.2))
 
@@ -395,13 +395,13 @@ theorem fold_or (x : Nat) (hx : x < 2^64) :
 theorem equal_spec (s t : W4) (hs : Inv s) (ht : Inv t) :
     Scalar.equal s t = if eval s = eval t then 1 else 0 := by
   obtain ⟨hi, he⟩ := fiatSub_spec ⟨0, 0, 0, 0⟩ s t hs ht
-  have hfold := fold_or _ (fiatNonzero_lt 0 _ (inv_words hi))
+  have hfold := fold_or _ (fiatNonzero_lt 0 _ (Scalar.inv_words hi))
   show Fiat.Equal s t = _
   unfold Fiat.Equal
   simp only at hfold ⊢
   rw [hfold]
-  have hsl := inv_lt hs
-  have htl := inv_lt ht
+  have hsl := Scalar.inv_lt hs
+  have htl := Scalar.inv_lt ht
   have iff : Fiat.fiatScalarNonzero 0 (Fiat.fiatScalarSub ⟨0, 0, 0, 0⟩ s t) = 0 ↔ eval s = eval t := by
     rw [fiatNonzero_spec, he]
     generalize eval s = S at *
@@ -470,7 +470,7 @@ theorem sc_and255 (a : Nat) : (a % 2^8) &&& 255 = a % 256 := by
   rw [this, Nat.and_two_pow_sub_one_eq_mod, Nat.mod_mod]
   norm_num
 
-theorem toBytes_spec (o : Bytes) (x : W4) (ho : o.size = 32) (hx : Words x) :
+theorem toBytes_spec (o : Bytes) (x : W4) (ho : o.size = 32) (hx : Scalar.Words x) :
     (Fiat.fiatScalarToBytes o x).size = 32 ∧
       ∀ i, i < 32 → (Fiat.fiatScalarToBytes o x)[i]! = eval x / 256^i % 256 := by
   obtain ⟨x0, x1, x2, x3⟩ := x
@@ -503,7 +503,7 @@ theorem fromBytes_receiver (o o' : W4) (b : Bytes) :
     Fiat.fiatScalarFromBytes o b = Fiat.fiatScalarFromBytes o' b := rfl
 
 theorem fromBytes_spec (o : W4) (b : Bytes) (hs : b.size = 32) (hb : ∀ i, i < 32 → b[i]! < 256) :
-    Words (Fiat.fiatScalarFromBytes o b) ∧ eval (Fiat.fiatScalarFromBytes o b) = Scalar.LE b := by
+    Scalar.Words (Fiat.fiatScalarFromBytes o b) ∧ eval (Fiat.fiatScalarFromBytes o b) = Scalar.LE b := by
   have e : Fiat.fiatScalarFromBytes o b = ⟨
       b[0]! + b[1]! * 2^8 + b[2]! * 2^16 + b[3]! * 2^24 + b[4]! * 2^32 + b[5]! * 2^40 + b[6]! * 2^48 + b[7]! * 2^56,
       b[8]! + b[9]! * 2^8 + b[10]! * 2^16 + b[11]! * 2^24 + b[12]! * 2^32 + b[13]! * 2^40 + b[14]! * 2^48 + b[15]! * 2^56,
@@ -519,7 +519,7 @@ theorem fromBytes_spec (o : W4) (b : Bytes) (hs : b.size = 32) (hb : ∀ i, i < 
         (hb 28 (by norm_num)) (hb 29 (by norm_num)) (hb 30 (by norm_num)) (hb 31 (by norm_num))]
     rfl
   rw [e, Scalar.LE_eq_sum, hs]
-  simp only [Finset.sum_range_succ, Finset.range_zero, Finset.sum_empty, Words, Scalar.eval]
+  simp only [Finset.sum_range_succ, Finset.range_zero, Finset.sum_empty, Scalar.Words, Scalar.eval]
   have := hb 0 (by norm_num); have := hb 1 (by norm_num); have := hb 2 (by norm_num); have := hb 3 (by norm_num)
   have := hb 4 (by norm_num); have := hb 5 (by norm_num); have := hb 6 (by norm_num); have := hb 7 (by norm_num)
   have := hb 8 (by norm_num); have := hb 9 (by norm_num); have := hb 10 (by norm_num); have := hb 11 (by norm_num)
@@ -552,14 +552,14 @@ theorem sc_bytes_ext (a b : Bytes) (n : Nat) (ha : a.size = n) (hb : b.size = n)
   have := h i (by rw [← ha]; exact h1)
   rwa [getElem!_pos a i h1, getElem!_pos b i h2] at this
 
-theorem toBytes_eq (o : Bytes) (x : W4) (ho : o.size = 32) (hx : Words x) :
+theorem toBytes_eq (o : Bytes) (x : W4) (ho : o.size = 32) (hx : Scalar.Words x) :
     Fiat.fiatScalarToBytes o x = Scalar.LEbytes (eval x) 32 := by
   obtain ⟨hs, hg⟩ := toBytes_spec o x ho hx
   apply sc_bytes_ext _ _ 32 hs (Scalar.LEbytes_size _ _)
   intro i hi
   rw [hg i hi, Scalar.LEbytes_get _ _ _ hi]
 
-theorem toBytes_receiver (o o' : Bytes) (x : W4) (ho : o.size = 32) (ho' : o'.size = 32) (hx : Words x) :
+theorem toBytes_receiver (o o' : Bytes) (x : W4) (ho : o.size = 32) (ho' : o'.size = 32) (hx : Scalar.Words x) :
     Fiat.fiatScalarToBytes o x = Fiat.fiatScalarToBytes o' x := by
   rw [toBytes_eq o x ho hx, toBytes_eq o' x ho' hx]
 
